@@ -8,6 +8,8 @@ INVARIANT I_NextToFile
 INVARIANT I_FallBack
 INVARIANT I_Determined
 INVARIANT I_Content
+INVARIANT I_Values
+INVARIANT I_Plat
 INVARIANT I_Face
 POSTCONDITION Witnesses
 CHECK_DEADLOCK FALSE
